@@ -238,6 +238,16 @@ Theorem C03_phantom_delivered :
 Proof. exact phantom_delivered. Qed.
 Print Assumptions C03_phantom_delivered.
 
+(* ================================================================== tie to the Pipeline model *)
+(* [deliver_one] is what the Pipeline model (validated in lock-step against the real observer) delivers for
+   AOp o; ARead (whole queue); ATick delay; AEmit ... from a state whose buffer is idle.  Stated; checked by
+   computation on every operation kind of the example world (below); not proved in general. *)
+Definition C03_pipeline_tie_full : Prop := forall P s o evs,
+  pc_filter P = None -> buffer_idle (p_buf s) -> p_stopped s = false -> k_queue (p_k s) = [] ->
+  (forall id, In id (map fst (p_tbl s)) -> (id < p_next s)%N) ->
+  deliver_one (pc_reader P) (pc_full P) (p_world s) (p_k s) (p_r s) o = Some evs ->
+  exists nit s' obs, prun P s (tie_history P s o nit) [] = Done (s', obs) /\ p_out s' = p_out s ++ evs.
+
 (* ================================================================== non-vacuity *)
 (* World: /R (watched), /O (outside); /R/d dir, /R/d/f file, /R/d/e empty dir, /R/x file, /O/y file, /O/z dir, /O/z/g.
    State: right after Inotify.__init__.  [ex_ok rec full ds o l]: the kernel queue is empty, [cover] holds for the
@@ -331,3 +341,19 @@ Proof.
   split; [apply wf_fsb_sound; vm_compute; reflexivity|].
   split; [apply not_under_sound; vm_compute; reflexivity|]. split; vm_compute; reflexivity.
 Qed.
+
+(* the directory-replacing rename (statement C03_contract_rename_dir_replacing_full) on the example world:
+   /O/z -> /R/d/e, an empty directory; the victim's IN_ATTRIB shows up as DirModified(/R/d/e) *)
+Example C03_contract_rename_dir_replacing_example :
+  ex_ok true false [ex_O; ex_Rd; ex_Oz; ex_Rde] (Rename ex_Oz ex_Rde)
+        [mk DirCreated ex_Rde []; parent_modified ex_Rde;
+         {| ev_cls := FileCreated; ev_src := ex_sl ex_Rde 103; ev_dest := []; ev_synth := true |};
+         mk DirModified ex_Rde []].
+Proof. vm_compute. repeat split; try discriminate. repeat constructor; eexists; repeat split. Qed.
+
+(* the Pipeline tie on the example world: for each of the 15 operations of [ex_ops] that applies, the Pipeline
+   run AOp; ARead; ATick; AEmit x6 from the initial state appends exactly [deliver_one]'s list to p_out -
+   recursive and non-recursive watch, normal and full emitter *)
+Example C03_pipeline_tie_examples :
+  ex_tie true false = true /\ ex_tie true true = true /\ ex_tie false false = true /\ ex_tie false true = true.
+Proof. vm_compute. repeat split. Qed.
